@@ -331,6 +331,58 @@ def seed_task(item):
     return ["ok", body] if head == "OK" else ["rej", body]
 
 
+POOL_RUNNER = r'''
+import sys, json, importlib.util, io, contextlib
+spec_file = sys.argv[2]
+sys.path.insert(0, sys.argv[1])
+import cohdl
+from cohdl import std
+jobs = json.load(open(spec_file))
+mods, out = {}, []
+for name, path, cfg in jobs:
+    if path not in mods:
+        mname = "cv_pool_%d" % len(mods)
+        spec = importlib.util.spec_from_file_location(mname, path)
+        m = importlib.util.module_from_spec(spec)
+        sys.modules[mname] = m
+        spec.loader.exec_module(m)
+        mods[path] = m
+    m = mods[path]
+    if hasattr(m, "configure"):
+        m.configure(**eval("dict(" + cfg + ")"))
+    try:
+        with contextlib.redirect_stdout(io.StringIO()), contextlib.redirect_stderr(io.StringIO()):
+            out.append([name, "ok", std.VhdlCompiler.to_string(m.E)])
+    except BaseException as e:
+        out.append([name, "rej", type(e).__name__ + ": " + (str(e).splitlines() or [""])[0][:200]])
+json.dump(out, sys.stdout)
+'''
+
+
+def seed_pool_task(item):
+    """compile ALL given (accepted) designs one after the other in ONE fresh interpreter under a PYTHONHASHSEED"""
+    names, seed = item
+    import json
+
+    d = scratch_dir() / f"pool_{os.getpid()}_{seed}"
+    d.mkdir(exist_ok=True)
+    (d / "runner.py").write_text(POOL_RUNNER)
+    jobs = []
+    for name in names:
+        bname, _, cfg = name.partition("@")
+        f = d / f"{bname}.py"
+        if not f.exists():
+            f.write_text(POOL[name][0])
+        jobs.append([name, str(f), cfg])
+    (d / "jobs.json").write_text(json.dumps(jobs))
+    env = dict(os.environ, PYTHONHASHSEED=str(seed))
+    p = subprocess.run([sys.executable, str(d / "runner.py"), str(REPO), str(d / "jobs.json")], capture_output=True,
+                       text=True, env=env, timeout=600)
+    if p.returncode != 0 or not p.stdout:
+        raise InfraError(f"pool subprocess seed {seed} failed: {p.stderr[-800:]}")
+    return {n: [v, t] for n, v, t in json.loads(p.stdout)}
+
+
 # ---------------------------------------------------------------------------------------------------
 # model side
 # ---------------------------------------------------------------------------------------------------
@@ -675,29 +727,49 @@ def run(ctx: Ctx):
                                                            "broken": "correspondence C11 model state vs module globals (theorem C11.compile_preserves_clean speaks about the model)",
                                                            "sources": {n: POOL[n][0] for n in set(h[: i + 1])}}, no_failing_input=True)
 
-    # ---- fresh interpreters under different hash seeds
-    seeds = ["0", "1", "2", "random"] if ctx.quick else ["0", "1", "2", "3", "4", "5", "random", "random"]
-    seed_designs = plain_acc if ctx.quick else [n for n in ACCEPTED if "#" not in n]
-    tasks = [(n, s) for n in seed_designs for s in seeds]
-    res = fork_map(seed_task, tasks, fresh=False)
-    seed_bad = 0
-    by_design = {}
-    for (n, s), r in zip(tasks, res):
+    # ---- fresh interpreters under different hash seeds: one subprocess per seed compiles EVERY accepted design of the
+    # pool (plain and re-configured; accepted designs leave a clean state); every text must equal the baseline and the
+    # texts of all other seeds.  A difference is confirmed with the design ALONE under two seeds (= the replay).
+    seeds = ["0", "1", "2", "3", str(rng.randrange(4, 2 ** 32))] if ctx.quick else \
+        [str(k) for k in range(8)] + [str(rng.randrange(8, 2 ** 32)) for _ in range(4)]
+    seed_designs = [n for n in ACCEPTED if "#" not in n]
+    res = fork_map(seed_pool_task, [(seed_designs, sd) for sd in seeds], fresh=False)
+    per_seed = {}
+    for sd, r in zip(seeds, res):
         if r[0] != "ok":
-            raise InfraError(f"seed task {n}/{s}: {r[1]}")
-        ctx.case(key=f"seed:{n}:{s}", nontrivial=False, kind="hashseed")
-        eff = effect(base[n], r[1] + [None])
-        if eff is not None:
-            by_design.setdefault(n, []).append((s, r[1]))
-    for n, lst in sorted(by_design.items()):
+            raise InfraError(f"seed pool task {sd}: {r[1]}")
+        per_seed[sd] = r[1]
+    seed_bad = 0
+    for n in seed_designs:
+        for sd in seeds:
+            ctx.case(key=f"seed:{n}:{sd}", nontrivial=False, kind="hashseed")
+        texts = {sd: per_seed[sd][n] for sd in seeds}
+        groups_ = {}
+        for sd in seeds:
+            groups_.setdefault(tuple(texts[sd]), []).append(sd)
+        differs_from_base = [sd for sd in seeds if effect(base[n], texts[sd] + [None]) is not None]
+        if len(groups_) == 1 and not differs_from_base:
+            continue
         seed_bad += 1
-        s, st = lst[0]
-        ln, x, y = first_line_diff(base[n][1], st[1]) if st[0] == "ok" else (0, "", st[1])
-        ctx.report(f"hashseed:{n}", f"`{n}` compiled in a fresh interpreter with PYTHONHASHSEED={s} differs from the in-harness compile (line {ln}: `{x}` -> `{y}`)",
-                   {"design": n, "source": POOL[n][0], "seeds_tried": seeds, "differing_seeds": [q for q, _ in lst],
-                    "expected": "sha256:" + verdict_of(base[n])[1], "observed": ("sha256:" + verdict_of(st)[1]) if st[0] == "ok" else st})
-    ctx.obligation("property: bytes identical in fresh interpreters under PYTHONHASHSEED " + "/".join(seeds), seed_bad == 0,
-                   detail=f"{len(tasks)} subprocess compilations")
+        if len(groups_) > 1:
+            (sa, *_), (sb, *_) = list(groups_.values())[:2]
+        else:
+            sa, sb = seeds[0], "harness"
+        # confirm with the design alone in two fresh interpreters
+        alone = {q: seed_task((n, q)) for q in (sa, sb) if q != "harness"}
+        confirmed = len({tuple(v) for v in alone.values()}) > 1 or (sb == "harness" and effect(base[n], alone[sa] + [None]) is not None)
+        ta = texts[sa]
+        tb = texts[sb] if sb != "harness" else list(base[n][:2])
+        ln, x, y = first_line_diff(ta[1], tb[1]) if ta[0] == "ok" and tb[0] == "ok" else (0, ta[1][:80], tb[1][:80])
+        ctx.report(f"hashseed:{n}", f"`{n}` compiled in fresh interpreters gives different results with PYTHONHASHSEED={sa} and "
+                   f"{'PYTHONHASHSEED=' + sb if sb != 'harness' else 'in the harness process'} (line {ln}: `{x}` -> `{y}`); "
+                   f"{len(groups_)} distinct results over seeds {seeds}; "
+                   f"{'confirmed with the design alone' if confirmed else 'NOT reproduced with the design alone (depends on the designs compiled before it in the subprocess)'}",
+                   {"design": n, "source": POOL[n][0], "seeds": [sa, sb], "seeds_tried": seeds, "distinct_results": len(groups_),
+                    "confirmed_alone": confirmed,
+                    "expected": "identical bytes", "observed": {sd: ("sha256:" + hashlib.sha256(texts[sd][1].encode()).hexdigest()[:16]) for sd in seeds}})
+    ctx.obligation("property: bytes of every accepted pool design identical in fresh interpreters under PYTHONHASHSEED " + "/".join(seeds),
+                   seed_bad == 0, detail=f"{len(seeds)} subprocesses x {len(seed_designs)} designs")
 
     # ---- perturbed allocation
     pert_designs = plain_acc if ctx.quick else ACCEPTED + ACCEPTED
@@ -735,13 +807,17 @@ def replay(ctx, data):
         return 0 if eff is None else 1
     if "seeds_tried" in r:
         n = r["design"]
-        base = real_histories([[n]])[0][0]
+        seeds = [q for q in r.get("seeds", r["seeds_tried"]) if q != "harness"]
+        if len(seeds) < 2:
+            seeds = r["seeds_tried"]
+        outs = {q: seed_task((n, q)) for q in seeds}
+        ref = outs[seeds[0]]
         bad = 0
-        for s in r["seeds_tried"]:
-            st = seed_task((n, s))
-            d = effect(base, st + [None])
-            print(f"PYTHONHASHSEED={s}: {d or 'identical'}")
-            bad += d is not None
+        for q in seeds:
+            same = outs[q] == ref
+            print(f"PYTHONHASHSEED={q}: {outs[q][0]} sha256:{hashlib.sha256(outs[q][1].encode()).hexdigest()[:16]}"
+                  f"{'' if same else '   <- differs from seed ' + seeds[0]}")
+            bad += not same
         return 1 if bad else 0
     if "design" in r:
         n = r["design"]
